@@ -558,9 +558,12 @@ def disp_case(draw, tier="quick"):
     xt = draw(gen.finite(-5e-3, 5e-3))          # true x position on the focal plane (metres)
     # trace polynomial, highest power first; curvature kept moderate so arc length is monotonic in x
     trace = [draw(gen.finite(-20.0, 20.0)) for _ in range(to - 1)] + [draw(gen.finite(-2, 2)), draw(gen.finite(-1e-3, 1e-3))]
+    # coefficient tables of a fixed length: a polynomial of lower degree written with exactly-zero leading
+    # coefficients ([0, a, b] is the line a x + b), for the trace and / or the dispersion
     return {"trace": trace, "xt": xt, "do": do,
             "dcoef": [draw(gen.finite(-1.0, 1.0)) for _ in range(do - 1)], "d1": draw(gen.signed_log(1e-5, 1e-3)),
-            "wavelength": draw(gen.finite(3e-7, 2e-6))}
+            "wavelength": draw(gen.finite(3e-7, 2e-6)),
+            "pad_trace": draw(st.sampled_from([0, 0, 0, 1, 2])), "pad_disp": draw(st.sampled_from([0, 0, 0, 1, 2]))}
 
 
 @hyp("C04", "dispersive", lambda tier: disp_case(tier),
@@ -578,7 +581,11 @@ def dispersive(case, ctx):
     disp = np.array(hi + [case["d1"], 0.0])
     disp[-1] = wl - np.polyval(disp, dist)
     to, do = len(trace) - 1, len(disp) - 1
-    ctx.tag(f"trace_order:{to}", f"dispersion_order:{do}")
+    trace = np.concatenate([np.zeros(case.get("pad_trace", 0)), trace])
+    disp = np.concatenate([np.zeros(case.get("pad_disp", 0)), disp])
+    dtr = np.polyder(trace)
+    ctx.tag(f"trace_order:{to}", f"dispersion_order:{do}", f"zero_padded_trace:{case.get('pad_trace', 0)}" if case.get("pad_trace") else None,
+            f"zero_padded_dispersion:{case.get('pad_disp', 0)}" if case.get("pad_disp") else None)
     ctx.nontrivial_if(abs(dist) > 0)
     with lentil_call("C04.dispersive", "DispersiveTilt.shift"):
         el = lentil.DispersiveTilt(trace=trace.tolist(), dispersion=disp.tolist())
